@@ -333,6 +333,12 @@ def run(ctx: Ctx):
     r_kelvin(ctx, model)
     r_reader(ctx, model)
     from ..sites import no_memoisation
+    # hand-written caches: every function of the module, as an entry point, writes no module-level object (shared with C04 R-module) -
+    # adsorbate / material constants looked up once and kept per name or temperature would answer for a later, different isotherm
+    from ..effects import Effects
+    from .C04 import r_module
+    _m = load(ctx.root)
+    r_module(ctx, _m, Effects(_m), [f for n_, f in _m.module("pygaps.characterisation.psd_meso").functions.items()], prop="C16", rule="P-fresh", write_once=[], memo=False)
     ctx.rule("P-fresh: no caching decorator on any function of pygaps.characterisation.")
     no_memoisation(ctx, load(ctx.root), "C16", "P-fresh", ('pygaps.characterisation.',),
                    "cached adsorbate constants / radii are keyed by adsorbate name and temperature only and survive a change of the adsorbate's properties or backend")
